@@ -24,7 +24,9 @@ from . import packages as pk
 PID = 'C14'
 RULE = ('cases = (opacity table in increasing wavelength covering 0.55 micron, wavelength unit, opacity unit, access '
         'path direct/pickle/table/file+columns, query wavelengths with their unit, and a history on the one object after the '
-        'first get_av: chi rescaled / replaced, wav re-assigned (other unit, other grid), table and pickle round trips, '
+        'first get_av: chi rescaled / replaced, wav re-assigned (other unit, other grid), table and pickle round trips, aliasing '
+        '(the table given to from_table / returned by to_table is modified in place afterwards, the original is changed after '
+        'pickling: the law must not change), '
         'get_av after each step); non-trivial when at least one query '
         'falls strictly inside the table away from V; distinct = distinct canonical hash of the generated inputs')
 REQUIRED_BRANCHES = ['query_inside', 'query_outside_low', 'query_outside_high', 'query_on_node', 'query_at_V',
@@ -33,7 +35,8 @@ REQUIRED_BRANCHES = ['query_inside', 'query_outside_low', 'query_outside_high', 
                      'query_shape_0d', 'query_shape_1d', 'query_shape_2d', 'v_first_node', 'v_last_node',
                      'chi_cm2_g', 'chi_m2_kg', 'via_direct', 'via_pickle', 'via_table', 'via_file',
                      'rows_2', 'rows_200',
-                     'hist_chi_scale', 'hist_chi_new', 'hist_wav_unit', 'hist_wav_new', 'hist_table', 'hist_pickle']
+                     'hist_chi_scale', 'hist_chi_new', 'hist_wav_unit', 'hist_wav_new', 'hist_table', 'hist_pickle',
+                     'hist_alias_from_table', 'hist_alias_to_table', 'hist_alias_pickle']
 ASSUMPTIONS = ['IEEE rounding is not modelled: patterns compared within 1e-9 relative (exactly 0 outside the table)',
                'decision margin: a query (or V used as a query) that, converted exactly to the table unit, lies within 4 ulp of '
                'the first / last node sits on the jump between the tabulated end value and 0; the float unit conversion '
@@ -140,7 +143,8 @@ def gen_case(rng, directed=None):
     return case
 
 
-HIST_OPS = ['chi_scale', 'chi_scale', 'chi_new', 'chi_new', 'wav_unit', 'wav_new', 'table', 'pickle']
+HIST_OPS = ['chi_scale', 'chi_scale', 'chi_new', 'chi_new', 'wav_unit', 'wav_new', 'table', 'pickle',
+            'alias_from_table', 'alias_from_table', 'alias_to_table', 'alias_pickle']
 
 
 def gen_step(rng, op, n, tab_unit):
@@ -157,16 +161,18 @@ def gen_step(rng, op, n, tab_unit):
         return dict(op=op, unit=rng.choice(list(UNIT_EXP)))
     if op == 'wav_new':
         return dict(op=op, f=rng.choice([0.5, 0.8, 0.25]))
+    if op.startswith('alias_'):
+        return dict(op=op, c=rng.choice([7.5, 0.1, 3.]), unit=rng.choice([k for k in UNIT_EXP if k != tab_unit]))
     return dict(op=op)
 
 
 DIRECTED = [
     dict(rows=2, tab_unit='micron', chi_unit='cm2/g', via='direct', query_units=['micron', 'nm', 'm'],
-         history=['chi_scale', 'chi_new']),
+         history=['chi_scale', 'alias_from_table', 'chi_new']),
     dict(rows=200, tab_unit='nm', chi_unit='m2/kg', via='pickle', query_units=['nm', 'micron'],
-         history=['chi_new', 'wav_unit', 'chi_scale']),
+         history=['chi_new', 'alias_to_table', 'wav_unit', 'chi_scale']),
     dict(rows=5, tab_unit='m', chi_unit='cm2/g', via='table', query_units=['m', 'micron'],
-         history=['wav_new', 'chi_scale', 'table', 'chi_new']),
+         history=['wav_new', 'alias_pickle', 'chi_scale', 'table', 'alias_from_table']),
     dict(rows=12, tab_unit='micron', chi_unit='m2/kg', via='file', query_units=['micron', 'm'],
          history=['pickle', 'chi_scale', 'wav_new']),
     dict(rows=200, tab_unit='m', chi_unit='m2/kg', via='file', query_units=['nm'], history=['chi_scale']),
@@ -410,7 +416,30 @@ def apply_step(e, step, wav, chi, tab_unit, chi_unit):
         e = Extinction.from_table(e.to_table())
     elif op == 'pickle':
         e = pickle.loads(pickle.dumps(e))
+    elif op == 'alias_from_table':
+        # law = from_table(t); then t is modified in place: the law must not change
+        t = e.to_table()
+        e = Extinction.from_table(t)
+        scribble_table(t, step, tab_unit)
+    elif op == 'alias_to_table':
+        # t = law.to_table(); then t is modified in place: the law must not change
+        t = e.to_table()
+        scribble_table(t, step, tab_unit)
+    elif op == 'alias_pickle':
+        # a pickled copy must not follow later changes of the original
+        e2 = pickle.loads(pickle.dumps(e))
+        e.chi = e.chi * step['c']
+        e.wav = e.wav.to(U[step['unit']])
+        e = e2
     return e, wav, chi, tab_unit
+
+
+def scribble_table(t, step, tab_unit):
+    """modify an astropy Table in place: other opacities, wavelengths converted to another unit"""
+    U = units()
+    t['chi'][:] = np.asarray(t['chi']) * step['c'] + 1.
+    t['wav'].convert_unit_to(U[step['unit']])
+    t['wav'][0] = t['wav'][0] * 0.5
 
 
 def run_case(case):
